@@ -1,9 +1,15 @@
 # Source of truth for MANIFEST.json (regenerate with: python3 tools/mkmanifest.py)
-HOOK_COMMITS = []
+HOOK_COMMITS = ["0b048fb"]
 ENGINES = [
     {"name": "check.py", "path": "/verif/tools/check.py", "serves_properties": [],
      "kind_free_text": "driver: TLC on spec/, Go overlay harness on /repo, TLC monitors on recorded traces"},
 ]
 CLAIMED = {}
+CLAIMED["C05"] = dict(
+    category="model_checking",
+    text="TLC exhausts the as-intended algebra (AccessMode.tla/AcsTracker.tla: all 257x257 notified changes, all 256x256 pairs for the delta/meet laws, all strings <=4 over 8 symbols) and then evaluates the law monitors (Monitor_C05.tla) on vectors recorded from the REAL functions over the same exhaustively enumerated domain (all 256 modes in text/JSON/DB form, all strings <=3 (quick) / <=4 (thorough) over 15 symbols plus structured multi-chunk deltas through ParseAcs/UnmarshalText/ApplyDelta/ApplyMutation, all mode pairs through Delta+Apply, every (old,new) change through the real notifySubChange -> updateAcsFromPresMsg). Finite domain, enumerated completely in thorough: the right level for a pure algebra.",
+    note="Trusted: Go stdlib json/sql glue; the reference operators of AccessMode.tla (binding compares every real output with them: zero divergences required on the unchanged tree). Notification path is exercised at function level (Topic.notifySubChange / proxy updateAcsFromPresMsg); the World-level follower check over whole request histories is part of the TopicCore traces.",
+    technique="TLA+ reference algebra model-checked by TLC; TLC-evaluated law monitors over exhaustively recorded real-function vectors (model-based test per input)",
+)
 _ALL = ["C%02d" % i for i in range(1, 21)]
 NOT_APPLICABLE = {p: "check not built yet in this round (work in progress; the technique applies, see DESIGN.md §5)" for p in _ALL if p not in CLAIMED}
